@@ -979,9 +979,10 @@ bool TypeUtilityParser::detectCircularReference(
         }
     }
 
-    // バックトラック
+    // バックトラック (the struct stays marked: it does not reach
+    // struct_name, so walking it again cannot find a cycle - unmarking it
+    // made a diamond of n structs cost 2^n walks)
     path.pop_back();
-    visited.erase(normalized_type);
 
     return false;
 }
